@@ -176,6 +176,14 @@ class ExecutorSchedules(Contract):
                 for r in range(size):
                     out.append(dict(label=f"{prog};ranks={size};rank={r}",
                                     prog=prog, size=size, rank=r))
+        import os
+        base = int(os.environ.get("VERIF_SEED", "1") or 1) * 1000
+        for i in range(24 if tier != "thorough" else 240):
+            size = (2, 3, 4)[i % 3]
+            for r in range(size):
+                out.append(dict(label=f"random{base + i};ranks={size};"
+                                      f"rank={r}", prog=f"random{base + i}",
+                                size=size, rank=r))
         return out
 
     def canaries(self, tier):
